@@ -351,10 +351,44 @@ where T: Integer, for<'x> &'x T: IntOps<T> {
 
 impl<T> Ord for Ratio<T>
 where T: Integer, for<'x> &'x T: IntOps<T> {
+    // Exact comparison: compare the integer parts, then the reciprocals 
+    // of the fractional parts (denominators are positive).
     fn cmp(&self, other: &Self) -> cmp::Ordering {
-        let l = self.to_f64();
-        let r = other.to_f64();
-        l.total_cmp(&r)
+        fn div_mod_floor<T>(a: &T, b: &T) -> (T, T)
+        where T: Integer, for<'x> &'x T: IntOps<T> {
+            let (q, r) = (a / b, a % b);
+            if r.is_negative() { // b > 0
+                (q - T::one(), r + b)
+            } else { 
+                (q, r)
+            }
+        }
+
+        let (mut a, mut b) = (self.numer.clone(),  self.denom.clone());
+        let (mut c, mut d) = (other.numer.clone(), other.denom.clone());
+        let mut rev = false;
+
+        loop { 
+            let (q1, r1) = div_mod_floor(&a, &b);
+            let (q2, r2) = div_mod_floor(&c, &d);
+
+            let ord = match T::cmp(&q1, &q2) { 
+                cmp::Ordering::Equal => match (r1.is_zero(), r2.is_zero()) { 
+                    (true,  true ) => cmp::Ordering::Equal,
+                    (true,  false) => cmp::Ordering::Less,
+                    (false, true ) => cmp::Ordering::Greater,
+                    (false, false) => { 
+                        // r1/b <=> r2/d  iff  d/r2 <=> b/r1
+                        (a, b, c, d) = (b, r1, d, r2);
+                        rev = !rev;
+                        continue
+                    }
+                },
+                ord => ord
+            };
+
+            return if rev { ord.reverse() } else { ord }
+        }
     }
 }
 
